@@ -1905,10 +1905,12 @@ class Pipeline:
         )
         # Functions that need no input at all (no parameters, or only defaults and bound
         # values) are available regardless of which inputs are provided.
+        # (A multi-output function of which only some outputs are provided still has to run.)
+        provided = set(inputs or ())
         independent = {
             f
             for f in pipeline.functions
-            if f not in input_nodes
+            if not all(name in provided for name in at_least_tuple(f.output_name))
             and all(arg in pipeline.defaults for arg in pipeline.root_args(f.output_name))
         }
         between = _find_nodes_between(pipeline.graph, input_nodes, output_nodes, independent)
